@@ -6,5 +6,8 @@ B=$V/build/ocaml
 mkdir -p "$B"
 cd "$B"
 coqc -Q "$V/coq/Model" SSL.Model -Q "$V/coq/Gen" SSL.Gen "$V/coq/Extract/Extract.v" >/dev/null
+rm -f "$B"/lane_*.ml
 cp "$V"/ocaml/*.ml "$B"/
-ocamlfind ocamlopt -w -a -o driver model.mli model.ml sexp.ml conv.ml lanes.ml driver.ml
+# lane_*.ml are optional plug-in handler modules (each calls Plug.register at load time)
+PLUGS=$(ls lane_*.ml 2>/dev/null | sort | tr '\n' ' ')
+ocamlfind ocamlopt -w -a -o driver model.mli model.ml sexp.ml conv.ml plug.ml $PLUGS lanes.ml driver.ml
